@@ -106,6 +106,46 @@ func h1GenFree(prop string) func(rng *simkit.Rand, tier string, idx int) *simkit
 			}
 			c.Script = append(c.Script, op)
 		}
+		// Bound the cost of a run: wall time grows with node-rounds (simulated time
+		// x nodes / interval, about a millisecond each), and the thorough tier's
+		// extra long waits with 20 ms tickers and six nodes ran into the wall
+		// watchdog. The long waits share what the budget leaves; one of them keeps
+		// the 70 s an expiry needs whenever that fits.
+		if tier == "thorough" {
+			nodes, short, long, nlong := c.Cfg["nodes"], int64(0), int64(0), 0
+			for _, op := range c.Script {
+				switch op.K {
+				case "longwait":
+					long += op.D
+					nlong++
+				case "addnode":
+					nodes++
+					short += op.D
+				default:
+					short += op.D
+				}
+			}
+			budget := 30000 * c.Cfg["interval_ms"] * int64(time.Millisecond) / nodes
+			if rest := budget - short; nlong > 0 && long > rest {
+				if rest < int64(5*time.Second) {
+					rest = int64(5 * time.Second)
+				}
+				keep := int64(0)
+				if rest >= int64(75*time.Second) {
+					keep = int64(70 * time.Second)
+				}
+				first := true
+				for i := range c.Script {
+					if op := &c.Script[i]; op.K == "longwait" {
+						if first && keep > 0 {
+							op.D, first = keep, false
+							continue
+						}
+						op.D = op.D * (rest - keep) / long
+					}
+				}
+			}
+		}
 		return c
 	}
 }
